@@ -105,6 +105,26 @@ B_LE = [None, 'unix', 'dos']
 B_MIME = [None, 'text/markdown']
 B_TYPE = [None, 'text', 'binary']
 
+# lines that real diff producers put into diff sections (one per known
+# phrase family), each usable after any other
+VENDOR_LINES = [
+    'diff --git a/src/a.c b/src/a.c', 'diff --git a/x y b/x y',
+    'diff -r 1a2b3c4d5e6f src/a.c', 'diff -u a b', 'diff --cc file',
+    'old mode 100644', 'new mode 100755', 'new file mode 100644',
+    'deleted file mode 100644', 'similarity index 90%',
+    'dissimilarity index 7%', 'similarity index 100', 'rename from a',
+    'rename to b', 'copy from a', 'copy to b', 'index 1a2b3c..4d5e6f 100644',
+    'index 0000000..1a2b3c', 'index 1..2...3', 'GIT binary patch',
+    'literal 12', 'delta 14', 'zcmZ?wbhEHb6krfw', 'Binary files a and b differ',
+    'Index: src/a.c', '=' * 67, 'RCS file: /cvs/a.c,v',
+    'retrieving revision 1.1', '==== //depot/a.c#1 - /ws/a.c ====',
+    'Only in a: b', '--- a/src/a.c\t2020-01-01 00:00:00', '+++ b/src/a.c',
+    '--- /dev/null', '*** a.c', '***************', '*** 1,2 ****',
+    '@@ -1 +1 @@', '@@ -1,2 +1,3 @@ def f():', '@@@ -1 -1 +1 @@@',
+    '-x', '+y', ' c', '\\ No newline at end of file', '', '%', 'index', '...',
+    'Property changes on: a', '1c1', '< x', '---', '> y',
+]
+
 SKELETONS = [
     ['change', 'file', 'meta'],
     ['preamble', 'meta', 'change', 'preamble', 'meta', 'file', 'meta',
@@ -156,6 +176,9 @@ def plan(tier):
             combos.extend(itertools.combinations(range(len(slots)), r))
         for i in range(0, len(combos), 60):
             units.append(('file', si, combos[i:i + 60]))
+    nv = len(VENDOR_LINES)
+    for a in range(nv):
+        units.append(('vendor', a, 2 if tier == 'quick' else 3))
     from mc import wrgraph
     ncfg = len(wrgraph.scale_configs(tier))
     for lo in range(0, ncfg, 4):
@@ -172,9 +195,15 @@ def plan(tier):
                 'with every choice vector of <= %d non-default benign '
                 'arguments (no "#." in content): additionally no Error token '
                 'and the Name.Tag tokens that look like headers equal the '
-                'section headers in order. Non-trivial: input contains a '
+                'section headers in order; (c) the same for files whose '
+                'preambles and diff hold every sequence of <= %d lines from a '
+                'catalogue of %d lines that diff producers emit (git extended '
+                'headers, svn / cvs / p4 / hg / diff -c / diff -e phrases). '
+                'Non-trivial: input contains a '
                 'complete header.' % (scopes[0][1], len(FINE), scopes[1][1],
-                                      len(COARSE), len(SKELETONS), k),
+                                      len(COARSE), len(SKELETONS), k,
+                                      2 if tier == 'quick' else 3,
+                                      len(VENDOR_LINES)),
         'bound': 'fine<=%d, coarse<=%d tokens; files k=%d'
                  % (scopes[0][1], scopes[1][1], k),
         'exhaustive': True,
@@ -248,6 +277,24 @@ def _unit_body(unit, tier, acc, timeouts):
             if timeouts[0] >= MAX_TIMEOUTS_PER_UNIT:
                 raise UnitAborted()
         acc.sample({'scale_configuration': cfgs[0]}, 1)
+    elif unit[0] == 'vendor':
+        _, a, depth = unit
+        for n in range(0, depth):
+            for t in itertools.product(VENDOR_LINES, repeat=n):
+                body = '\n'.join((VENDOR_LINES[a],) + t) + '\n'
+                viols = _vendor_case(body, timeouts)
+                acc.evals += 1
+                acc.states += 1
+                acc.transitions += 1
+                acc.validated += 1
+                acc.nontrivial += 1
+                for key, msg in viols:
+                    acc.violation(key + ':vendor', msg[:600],
+                                  {'kind': 'vendor', 'body': body})
+                acc.outcome('ok' if not viols else 'violation')
+                if timeouts[0] >= MAX_TIMEOUTS_PER_UNIT:
+                    raise UnitAborted()
+        acc.sample({'vendor_first_line': VENDOR_LINES[a]}, 1)
     elif unit[0] == 'str-short':
         alpha = FINE if unit[1] == 'fine' else COARSE
         for n in (0, 1):
@@ -297,7 +344,30 @@ def _unit_body(unit, tier, acc, timeouts):
         acc.sample({'skeleton': sk}, 1)
 
 
+def _vendor_case(body, timeouts=None):
+    calls = [['preamble', body, None, 0, None, None], ['change', None],
+             ['preamble', body, None, 2, None, None], ['file', None],
+             ['meta', {'path': 'src/a.c'}, None],
+             ['diff', body.encode('utf-8'), None, None, None]]
+    data, recs = spec.serialize(calls, 'utf-8')
+    text = data.decode('utf-8')
+    headers = ['#%s:' % r['section'] for r in recs]
+    signal.signal(signal.SIGALRM, _alarm)
+    signal.setitimer(signal.ITIMER_REAL, WATCHDOG_S)
+    try:
+        return check_file(text, headers)
+    except Timeout:
+        if timeouts is not None:
+            timeouts[0] += 1
+        return [('lexer-timeout', repr(body[:200]))]
+    finally:
+        signal.setitimer(signal.ITIMER_REAL, 0)
+
+
 def replay(payload):
+    if payload.get('kind') == 'vendor':
+        return [{'key': k + ':vendor', 'msg': m[:600]}
+                for k, m in _vendor_case(payload['body'])]
     signal.signal(signal.SIGALRM, _alarm)
     signal.setitimer(signal.ITIMER_REAL, 2)
     try:
